@@ -20,8 +20,14 @@
    op 4  UDPNetworkClient.recv_packet(timeout=T) / DatagramEndpoint (one _retry behind lock_with_timeout)
          input  L [A 4; tmo ri; tmo T; lock; L recv_script; L sel_script; ...]      output as one op 1 entry
    op 5  UDPNetworkClient.send_packet(data, timeout=T)
-         input  L [A 5; tmo ri; tmo T; lock; B data; L sock_script; L sel_script; ...]   output as op 3          *)
-From EN Require Import Lib.Bytes Lib.Sx IO.Retry IO.SendAll IO.SendMsg IO.Budget Gen.ParamsC11.
+         input  L [A 5; tmo ri; tmo T; lock; B data; L sock_script; L sel_script; ...]   output as op 3
+   op 6  _retry in a time-indexed environment (IO/RetryEnv.v): the fd becomes ready at tick tau, spurious readiness at
+         the ticks `spur`; the callback and the selector are functions of the virtual time
+         input  L [A 6; tmo T; tmo ri; A tau; L [A s ...]]                               output as op 0
+   op 7  AsyncClientRecvIterator: iter_received_packets(timeout=T) on the asyncio backend, one __anext__ per arrival
+         input  L [A 7; tmo T; L [A d (packet after d ticks, 0 = buffered) | A (-1) (connection error) ...]]
+         output L [L [A code; A dt] ...]                                                                      *)
+From EN Require Import Lib.Bytes Lib.Sx IO.Retry IO.RetryEnv IO.SendAll IO.SendMsg IO.Budget Gen.ParamsC11.
 Open Scope Z_scope.
 
 Definition as_tmo (x : sx) : option tmo := as_opt as_Z x.
@@ -204,5 +210,19 @@ Definition run (i : sx) : sx :=
       do ri <- as_tmo ri; do T <- as_tmo T; do lk <- as_lock lk;
       do script <- as_list_of as_sockans script; do sels <- as_list_of as_selans sels;
       run_dgram_send ri T lk data script sels
+  | L (A 6 :: T :: ri :: A tau :: spur :: _) =>
+      do T <- as_tmo T; do ri <- as_tmo ri; do spur <- as_list_of as_Z spur;
+      let r := retry_env (mk_env tau spur) (Z.to_nat (Z.max 0 tau) + 3) ri T 0 in
+      let '(code, ret) := match rr_out r with
+                          | ROk _ t => (0, L [of_tmo t])
+                          | RTimeout => (E_TIMEOUT, L [])
+                          | RRaise c => (c, L [])
+                          | RFuel => (9, L [])
+                          end in
+      L [A code; ret; L (map of_wait (rr_waits r)); A (rr_dt r)]
+  | L (A 7 :: T :: arr :: _) =>
+      do T <- as_tmo T;
+      do arr <- as_list_of (fun x => match x with A d => Some (if d <? 0 then ArrErr else ArrAfter d) | _ => None end) arr;
+      L (map (fun st => L [A (as_out st); A (as_dt st)]) (aiter_run T arr))
   | _ => bad_input
   end.
